@@ -59,4 +59,56 @@ def programs():
     f = Func("bump", [Param(P("int"), "n")], P("int"), [Decl(P("int"), "m", Bin("+", Var("n"), I(1))), Ret(Var("m"))])
     main = Func("main", [], VOID, [Decl(P("int"), "m", I(50)), Decl(P("int"), "n", I(60)), Echo(Call("bump", I(1))), Echo(Var("m")), Echo(Var("n"))])
     out.append(Program([f, main]))
+    out += class_scope_programs()
+    return out
+
+
+def class_scope_programs():
+    """class code whose bare names could be captured by a frame that happens to be live: field initialisers under a constructor
+    whose parameters are named like fields, ++/-- on bare field names under callers with same-named locals, static initialisers
+    of a generic class first instantiated inside a function with same-named locals"""
+    out = []
+    INT = P("int")
+    for pnames in (("w", "dbl", "side"), ("p", "q", "r")):       # colliding and fresh parameter names: same behaviour
+        a, b, c = pnames
+        shape = Class("Shape", "", [Field(INT, "w", I(5)), Field(INT, "dbl", Bin("*", Var("w"), I(2))), Field(INT, "sum", Bin("+", Var("dbl"), Var("w")))],
+                      [Method("area", [], INT, [Ret(Bin("+", Var("sum"), Var("dbl")))])],
+                      [Ctor([Param(INT, a)], [Echo(Bin("+", S("Shape "), Var(a))), Expr(FAsg(This(), "w", Var(a)))]),
+                       Ctor([Param(INT, a), Param(INT, b)], [Echo(Bin("+", S("Shape2 "), Bin("+", Var(a), Var(b))))])], [])
+        sq = Class("Sq", "Shape", [Field(INT, "side", Bin("+", Var("w"), I(1))), Field(INT, "twice", Bin("*", Var("side"), I(2)))], [],
+                   [Ctor([Param(INT, c), Param(INT, a)], [Super(Bin("+", Var(c), Var(a))), Echo(Bin("+", S("Sq "), Var(c)))]),
+                    Ctor([Param(INT, b)], [Super(Var(b)), Echo(Bin("+", S("Sq1 "), Var(b)))])], [])
+        main = Func("main", [], VOID, [
+            Decl(INT, "w", I(70)), Decl(INT, "dbl", I(71)), Decl(INT, "side", I(72)),
+            Decl(C("Shape"), "s", New("Shape", I(40))), Echo(Fld(Var("s"), "w")), Echo(Fld(Var("s"), "dbl")), Echo(Fld(Var("s"), "sum")), Echo(MCall(Var("s"), "area")),
+            Decl(C("Shape"), "s2", New("Shape", I(8), I(9))), Echo(Fld(Var("s2"), "dbl")), Echo(Fld(Var("s2"), "sum")),
+            Decl(C("Sq"), "x", New("Sq", I(3), I(9))), Echo(Fld(Var("x"), "side")), Echo(Fld(Var("x"), "twice")), Echo(Fld(Var("x"), "dbl")),
+            Decl(C("Sq"), "y", New("Sq", I(6))), Echo(Fld(Var("y"), "side")), Echo(Fld(Var("y"), "sum")),
+            Echo(Var("w")), Echo(Var("dbl")), Echo(Var("side"))])
+        out.append(Program([main], [shape, sq]))
+    for lnames in (("hits", "left", "total"), ("h0", "l0", "t0")):
+        h, l, t = lnames
+        counter = Class("Counter", "", [Field(INT, "hits", I(0)), Field(INT, "left", I(10)), Field(INT, "total", I(0), static=True)],
+                        [Method("bump", [], VOID, [Expr(Post("++", "hits")), Expr(Post("--", "left")), Expr(Post("++", "total"))]),
+                         Method("bumpTwice", [], VOID, [Decl(INT, h, I(500)), Expr(MCall(This(), "bump", bare=True)), Expr(MCall(This(), "bump")), Echo(Var(h))]),
+                         Method("tick", [], INT, [Decl(INT, t, I(0)), Expr(Post("++", "total")), Ret(Bin("+", Var("total"), Var(t)))], static=True),
+                         Method("show", [], VOID, [Echo(Var("hits")), Echo(Var("left")), Echo(Var("total"))])],
+                        [Ctor([], [Expr(Post("++", "hits")), Expr(Post("--", "hits"))])],
+                        [Expr(Post("--", "total")), Echo(Bin("+", S("~Counter "), Var("total")))])
+        drive = Func("drive", [Param(C("Counter"), "c")], INT, [Decl(INT, h, I(100)), Decl(INT, l, I(200)), Expr(MCall(Var("c"), "bumpTwice")),
+                                                               Expr(MCall(Var("c"), "bump")), Echo(Var(h)), Echo(Var(l)), Ret(Bin("+", Var(h), Var(l)))])
+        main = Func("main", [], VOID, [Decl(INT, t, I(1000)), Decl(C("Counter"), "c", New("Counter")), Echo(Call("drive", Var("c"))),
+                                       Echo(SCall("Counter", "tick")), Echo(Var(t)), Expr(MCall(Var("c"), "show")),
+                                       Block([Decl(INT, h, I(7)), Decl(C("Counter"), "d", New("Counter")), Expr(MCall(Var("d"), "bump")), Echo(Var(h))]),
+                                       Echo(Var(t))])
+        out.append(Program([drive, main], [counter]))
+    for lnames in (("base", "twice"), ("b0", "t0")):
+        b, t = lnames
+        g = Class("G", "", [Field(INT, "base", I(5), static=True), Field(INT, "twice", Bin("*", Var("base"), I(2)), static=True), Field(P("T"), "v")],
+                  [Method("tw", [], INT, [Ret(Bin("+", Var("twice"), Var("base")))])], [Ctor([Param(P("T"), "x")], [Expr(FAsg(This(), "v", Var("x")))])], [], tparams=["T"])
+        first = Func("first", [], INT, [Decl(INT, b, I(100)), Decl(INT, t, I(300)), Decl(C("G", [P("int")]), "g", New("G", I(1), targs=[P("int")])),
+                                        Ret(Bin("+", MCall(Var("g"), "tw"), Var(b)))])
+        second = Func("second", [Param(INT, b)], INT, [Decl(C("G", [P("str")]), "g", New("G", S("s"), targs=[P("str")])), Ret(Bin("+", MCall(Var("g"), "tw"), Var(b)))])
+        main = Func("main", [], VOID, [Echo(Call("first")), Echo(Call("second", I(1000)))])
+        out.append(Program([first, second, main], [g]))
     return out
